@@ -278,6 +278,6 @@ Definition freeze_protects_all (cfg : config) : Prop :=
 Theorem derive_keeps_composition : forall cfg st o, Inv st ->
   Inv (fst (step cfg (ODerive o) st)) /\ fresh (fst (step cfg (ODerive o) st)) = fresh st.
 Proof.
-  intros cfg st o HI. cbn [step]. destruct (Pres_unit_ans _ (Pres_op_derive o) st HI) as (I & T).
+  intros cfg st o HI. cbn [step]. destruct (Pres_unit_ans _ (Pres_op_derive cfg o) st HI) as (I & T).
   split; auto. now apply fresh_of_thaw.
 Qed.
